@@ -451,8 +451,7 @@ class XMLBIFWriter(object):
          'bowel-problem': <Element DEFINITION at 0x7f1d48977348>,
          'light-on': <Element DEFINITION at 0x7f1d48977448>}
         """
-        cpds = self.model.get_cpds()
-        cpds.sort(key=lambda x: x.variable)
+        cpds = sorted(self.model.get_cpds(), key=lambda x: x.variable)
         definition_tag = {}
         for cpd in cpds:
             definition_tag[cpd.variable] = etree.SubElement(self.network, "DEFINITION")
